@@ -35,7 +35,7 @@ THEOREMS = [
     'Pyiga.Props.C19.mesh_span_indices_spec', 'Pyiga.Props.C19.mesh_span_indices_count',
     'Pyiga.Props.C19.mesh_support_consistency',
     'Pyiga.Props.C19.greville_in_domain', 'Pyiga.Props.C19.greville_raw_in_domain',
-    'Pyiga.Props.C19.refine_sorted', 'Pyiga.Props.C19.refine_perm',
+    'Pyiga.Props.C19.refine_sorted', 'Pyiga.Props.C19.refine_perm', 'Pyiga.Props.C19.refine_uniform_spec',
     'Pyiga.Props.C19.eq_refl', 'Pyiga.Props.C19.eq_not_symm', 'Pyiga.Props.C19.eq_sym_repaired',
     'Pyiga.Props.C19.spline_derivative',
 ]
